@@ -26,6 +26,8 @@ type T struct {
 	id   int
 	size int // tree size estimate (saturating)
 	def  string
+	lo, hi int64 // signed interval valid for all assignments when ivOK
+	ivOK   bool
 	vset []*T // variables occurring in the term (sorted by id), nil+vmany if more than maxVset
 	vmany bool
 }
@@ -99,6 +101,7 @@ func (tt *termTable) intern(op string, w int, k uint64, name string, rat *big.Ra
 	}
 	tt.next++
 	tt.tab[key] = t
+	computeInterval(t)
 	return t
 }
 
@@ -294,6 +297,9 @@ func (tt *termTable) eq(a, b *T) *T {
 			return tt.not(a)
 		}
 	}
+	if a.w > 0 && a.ivOK && b.ivOK && (a.hi < b.lo || b.hi < a.lo) {
+		return tt.boolc(false)
+	}
 	if a.id > b.id {
 		a, b = b, a
 	}
@@ -405,6 +411,23 @@ func (tt *termTable) bvcmp(op string, a, b *T) *T {
 			return tt.boolc(true)
 		default:
 			return tt.boolc(false)
+		}
+	}
+	if v, ok := cmpByInterval(op, a, b); ok {
+		return tt.boolc(v)
+	}
+	// x + y compared with x, where the sum cannot wrap and y >= 0: the sum is never smaller
+	if a.op == "bvadd" && a.ivOK && a.lo >= 0 {
+		for i := 0; i < 2; i++ {
+			x, y := a.args[i], a.args[1-i]
+			if x == b && x.ivOK && x.lo >= 0 && y.ivOK && y.lo >= 0 {
+				switch op {
+				case "bvult", "bvslt":
+					return tt.boolc(false)
+				case "bvuge", "bvsge":
+					return tt.boolc(true)
+				}
+			}
 		}
 	}
 	return tt.intern(op, 0, 0, "", nil, a, b)
